@@ -5,7 +5,7 @@
    open_registry() reads that file; a fresh instance of class k is set from the cache". *)
 From Coq Require Import List NArith ZArith.
 Import ListNotations.
-Require Import Base.Wire Base.PyStr C15.Model C15.Lemmas C15.Names C15.Codec C15.Split C15.File C15.FileMulti C15.Tree C15.Final C15.Atomic C15.Gen C15.Restart C15.Wrapped C15.NormRT C15.Reset C15.ResetWorld C15.Width.
+Require Import Base.Wire Base.PyStr C15.Model C15.Lemmas C15.Names C15.Codec C15.Split C15.File C15.FileMulti C15.Tree C15.Final C15.Atomic C15.Gen C15.Restart C15.Wrapped C15.NormRT C15.Reset C15.ResetWorld C15.Width C15.Api.
 Require Import gen.T15.
 
 (* ---- names: split inverts join for every non-empty list of names (full statement since the
@@ -422,3 +422,43 @@ Theorem C15_wrap_without_minimum_zero_iff :
   forall name, wrap_width_with 0 name = 0%nat <-> (WRAP_COLS - WRAP_EXTRA <= length name)%nat.
 Proof. exact no_minimum_width_zero_iff. Qed.
 Print Assumptions C15_wrap_without_minimum_zero_iff.
+
+(* ---- the plugin API.  PluginMixin.setRegistryValue(v, network=n, channel=c) descends exactly:
+   reg_write_addr n c names the node <var>.:n.#c (regop_top maps the API calls to tree operations; the
+   read path registryValue resolves leniently: reg_read_addr).  After such a write, registryValue from
+   ANOTHER network for the channel of the same name still returns what the settings in force said. *)
+Theorem C15_api_write_then_read_other :
+  forall (t : tree pv) (s : spec pv) (k : kind) (dflt : pv) (live : list str) x n y c n' (v : pv),
+  Inv pv (k_reparse k dflt) t s -> safe pv (k_reparse k dflt) v ->
+  net_key n' <> net_key (x :: n) ->
+  let t1 := fst (step pv (k_reparse k dflt) (k_settext k) t (regop_top live (RWrite (x :: n) (y :: c) v))) in
+  snd (step pv (k_reparse k dflt) (k_settext k) t1 (OGet (ANC (net_key n') (y :: c))))
+  = Ok (resolve pv s (ANC (net_key n') (y :: c))).
+Proof. exact api_write_then_read_other. Qed.
+Print Assumptions C15_api_write_then_read_other.
+
+(* in terms of the settings: a network+channel setting is seen only there; a network setting is not seen
+   by the general value nor by other networks *)
+Theorem C15_api_settings_local :
+  forall (V : Type) (s : spec V) n c v,
+  (forall n' c', (n', c') <> (n, c) -> resolve V (assign V (ANC n c) v s) (ANC n' c') = resolve V s (ANC n' c')) /\
+  (forall c', resolve V (assign V (ANC n c) v s) (AC c') = resolve V s (AC c')) /\
+  resolve V (assign V (ANC n c) v s) AG = resolve V s AG /\
+  resolve V (assign V (ANC n c) v s) (ANC n c) = v /\
+  resolve V (assign V (AN n) v s) AG = resolve V s AG /\
+  (forall n', n' <> n -> resolve V (assign V (AN n) v s) (AN n') = resolve V s (AN n')).
+Proof.
+  intros V s n c v. repeat split.
+  - intros n' c'. apply assign_nc_other_net.
+  - apply assign_nc_self.
+  - intros n'. apply assign_n_other_net.
+Qed.
+Print Assumptions C15_api_settings_local.
+
+(* the lenient read resolver on the write path would leak: written for network a, seen from network b *)
+Theorem C15_write_through_read_resolver_refuted :
+  resolve nat (assign nat (AC [35; 97]) 7%nat (mkspec nat 1%nat [] [] [])) (ANC (net_key [98]) [35; 97]) = 7%nat /\
+  resolve nat (mkspec nat 1%nat [] [] []) (ANC (net_key [98]) [35; 97]) = 1%nat /\
+  resolve nat (assign nat (ANC (net_key [97]) [35; 97]) 7%nat (mkspec nat 1%nat [] [] [])) (ANC (net_key [98]) [35; 97]) = 1%nat.
+Proof. exact write_through_read_resolver_leaks. Qed.
+Print Assumptions C15_write_through_read_resolver_refuted.
